@@ -3,6 +3,7 @@
 Nothing in this package executes repository code; every fact is read off the syntax tree.
 """
 import ast
+import copy
 import glob
 import hashlib
 import os
@@ -78,6 +79,91 @@ def _deco_kind(node):
     return kind
 
 
+_KNOWN = None
+
+
+def known_functions():
+    """Frozen table of the function names the rules were written against (reference tree).  A function that is not in
+    the table is new to the rules: when it is small enough its calls are analysed as if its body stood at the call site."""
+    global _KNOWN
+    if _KNOWN is None:
+        p = os.path.join(os.path.dirname(os.path.abspath(__file__)), 'known_funcs.txt')
+        try:
+            with open(p) as fh:
+                _KNOWN = {l.strip() for l in fh if l.strip() and not l.startswith('#')}
+        except OSError:
+            _KNOWN = set()
+    return _KNOWN
+
+
+class _CanonCache:
+    """Optional on-disk memo of canonicalised functions, keyed by the function's source text (and the version of the
+    canonicaliser).  Purely an optimisation: a miss recomputes from the current source; nothing else is read from it."""
+
+    def __init__(self, module):
+        import pickle
+        self.pickle = pickle
+        self.dir = os.environ.get('MPV_CACHE', os.path.join(os.path.dirname(os.path.dirname(os.path.abspath(__file__))), '.cache'))
+        try:
+            with open(os.path.join(os.path.dirname(os.path.abspath(__file__)), 'canon.py'), 'rb') as fh:
+                ver = hashlib.sha1(fh.read()).hexdigest()[:12]
+        except OSError:  # pragma: no cover
+            ver = 'x'
+        self.path = os.path.join(self.dir, f'canon-{ver}-{module}.pkl')
+        self.data = {}
+        self.new = {}
+        if os.environ.get('MPV_NOCACHE'):
+            self.path = None
+            return
+        try:
+            with open(self.path, 'rb') as fh:
+                self.data = pickle.load(fh)
+        except Exception:
+            self.data = {}
+
+    def get(self, key, lineno):
+        v = self.data.get(key)
+        if v is None:
+            return None
+        try:
+            base, blob = v
+            node = self.pickle.loads(blob)
+        except Exception:
+            return None
+        if base != lineno:
+            ast.increment_lineno(node, lineno - base)
+        return node
+
+    def put(self, key, lineno, node):
+        if self.path is None:
+            return
+        try:
+            self.new[key] = (lineno, self.pickle.dumps(node, protocol=4))
+        except Exception:  # pragma: no cover
+            pass
+
+    def flush(self):
+        if not self.new or self.path is None:
+            return
+        try:
+            os.makedirs(self.dir, exist_ok=True)
+            cur = {}
+            try:
+                with open(self.path, 'rb') as fh:
+                    cur = self.pickle.load(fh)
+            except Exception:
+                cur = {}
+            if len(cur) > 6000:
+                cur = {}
+            cur.update(self.new)
+            tmp = f'{self.path}.{os.getpid()}.tmp'
+            with open(tmp, 'wb') as fh:
+                self.pickle.dump(cur, fh, protocol=4)
+            os.replace(tmp, self.path)
+        except Exception:  # pragma: no cover
+            pass
+
+
 class Model:
     """All modules of the package, indexed."""
 
@@ -90,6 +176,7 @@ class Model:
         self.classes = {}       # 'module::Class' -> ClassDef
         self.class_alias = {}   # 'module::Class' -> {alias name: target name}
         self.class_bases = {}   # 'module::Class' -> [base names]
+        self.helpers = {}       # module -> helper functions inlined at their call sites
         for m, src in self.sources.items():
             try:
                 tree = ast.parse(src)
@@ -108,20 +195,77 @@ class Model:
 
     def _canonicalise(self, m, tree):
         sel = self.CANON.get(m, False)
-        if sel is False:
-            return tree
-        from .canon import canon_function
+        from . import canon
+        lines = self.sources[m].splitlines()
+        cache = _CanonCache(m)
+        known = known_functions()
+
+        # helpers: small functions that are not part of the vocabulary the rules were written against
+        helpers = {}
+        htext = []
+
+        def scan(body, cls):
+            for n in body:
+                if isinstance(n, ast.FunctionDef):
+                    q = f'{m}::{cls + "." if cls else ""}{n.name}'
+                    if known and q not in known:
+                        kind = canon.helper_candidate(n)
+                        if kind is not None:
+                            if cls and kind == 'function':
+                                kind = 'method'
+                            try:
+                                hn = canon.canon_function(n, protocol=False)
+                            except RecursionError:  # pragma: no cover
+                                continue
+                            helpers[(cls, n.name)] = canon.Helper(hn, kind, cls)
+                            htext.append('\n'.join(lines[n.lineno - 1:n.end_lineno]))
+                elif isinstance(n, ast.ClassDef) and cls is None:
+                    scan(n.body, n.name)
+                elif isinstance(n, (ast.If, ast.Try)) and cls is None:
+                    scan(getattr(n, 'body', []) + getattr(n, 'orelse', []), None)
+        scan(tree.body, None)
+        hkey = hashlib.sha1('\0'.join(htext).encode()).hexdigest() if htext else ''
+        self.helpers[m] = sorted(f'{c + "." if c else ""}{nm}' for c, nm in helpers)
 
         class T(ast.NodeTransformer):
-            def visit_FunctionDef(self, n):
+            def __init__(self):
+                self.cls = []
+                self.depth = 0
+
+            def visit_ClassDef(self, n):
+                self.cls.append(n.name)
                 self.generic_visit(n)
-                if sel is None or n.name in sel:
-                    return canon_function(n)
+                self.cls.pop()
                 return n
+
+            def visit_FunctionDef(self, n):
+                proto = sel is None or (sel is not False and n.name in sel)
+                first = min([n.lineno] + [d.lineno for d in n.decorator_list])
+                text = '\n'.join(lines[first - 1:n.end_lineno])
+                key = hashlib.sha1(f'{int(proto)}|{n.col_offset}|{hkey}|{text}'.encode()).hexdigest()
+                hit = cache.get(key, n.lineno)
+                if hit is not None:
+                    return hit
+                cls = self.cls[-1] if (self.cls and self.depth == 0) else None
+                self.depth += 1
+                saved, self.cls = self.cls, []
+                self.generic_visit(n)
+                self.cls = saved
+                self.depth -= 1
+                try:
+                    if helpers:
+                        n = copy.deepcopy(n)
+                        canon.h1_inline(n, {k: h for k, h in helpers.items() if h.node.name != n.name}, cls)
+                    out = canon.canon_function(n, protocol=proto)
+                except RecursionError:  # pragma: no cover
+                    out = n
+                cache.put(key, n.lineno, out)
+                return out
 
             visit_AsyncFunctionDef = visit_FunctionDef
         tree = T().visit(tree)
         ast.fix_missing_locations(tree)
+        cache.flush()
         return tree
 
     def _index(self, m, body, prefix, cls, parent):
